@@ -22,7 +22,7 @@ def cases(tier, seed):
     out = []
     sizes = [(8, 6), (9, 7)]
     bases = ['cu', 'nu'] if tier == 'quick' else ['cu', 'nu', 'nu24']
-    pots = ['const', 'rot', 'mode', 'dense', 'vortex']
+    pots = ['const', 'rot', 'fastrot', 'mode', 'dense', 'vortex']
     for (nq, nr), basis, pot, nul, expl in itertools.product(sizes, bases, pots, (False, True), (True, False)):
         if tier == 'quick' and (nq, nr) == (9, 7) and basis == 'nu' and pot in ('const', 'dense', 'vortex'):
             continue
@@ -66,6 +66,8 @@ def _potential(name, Q, R, c, amp=None):
         return np.full(Q.shape, 0.37)
     if name == 'rot':
         return 0.06 * R ** 2 / 2
+    if name == 'fastrot':
+        return 3.0 * R ** 2 / 2          # omega*dt/B0 of several turns: theta feet far outside [0, 2 pi) on both sides
     if name == 'mode':
         return 0.5 * R * np.cos(Q) * np.sin(0.2 * R)
     if name == 'dense':
@@ -259,8 +261,9 @@ def _run_step(case):
                         tag, dt, v, name, i, j, k2[1, i, j], g[i, j], want[i, j]))
                 if case['pot'] == 'const' and name == 'dense' and ok.any() and not np.abs(g - f)[ok].max() <= 1e-11 * np.abs(f).max() * Sq.cond_inf() * Sr.cond_inf():
                     V('constant-potential-not-identity', '%s dt=%g: f changed by %.3g under a constant potential' % (tag, dt, np.abs(g - f)[ok].max()))
-                if case['pot'] == 'rot' and name == 'dense' and ok.any():
-                    rot = _angdiff(adv._endPts_k2_q, (Q - 0.06 * dt / c.B0) % tp, tp)
+                if case['pot'] in ('rot', 'fastrot') and name == 'dense' and ok.any():
+                    omega = 0.06 if case['pot'] == 'rot' else 3.0
+                    rot = _angdiff(adv._endPts_k2_q, (Q - omega * dt / c.B0) % tp, tp)
                     if not max(rot[ok].max(), np.abs(adv._endPts_k2_r - R)[ok].max()) <= max(ftol, 1e-11):
                         V('rigid-rotation-violated:' + scheme, '%s dt=%g: feet are not the rigid rotation by omega*dt/B0 (error %.3g)' % (tag, dt, rot[ok].max()))
     return viols, evals, nontriv, skipped, worst
